@@ -291,7 +291,7 @@ class DefUse:
     def args_in(atoms):
         return {a[1] for a in atoms if a[0] == 'arg'}
 
-    def root_of(self, l, depth=0):
+    def root_of(self, l, depth=0, through_calls=True):
         """follow single-definition copies / moves / reborrows / unwrap-like identity calls back to a root local"""
         seen = set()
         while l not in seen:
@@ -303,7 +303,7 @@ class DefUse:
             if si is None:
                 t = self.fn.term(bb)
                 c = callee_of(t)
-                if c and _identity_like(c) and t['args'] and op_local(t['args'][0]) is not None:
+                if through_calls and c and _identity_like(c) and t['args'] and op_local(t['args'][0]) is not None:
                     l = op_local(t['args'][0])
                     continue
                 return l
